@@ -99,6 +99,7 @@ def run(ck, fb):
     r01w(ck, fb)
     r01y(ck, fb)
     r01z(ck, fb)
+    r01aa(ck, fb)
     ck.borrow('rules.c07', {'R07f': 'R01x'}, 'a snapshot must be labelled with the index of the last entry it contains: last_applied_log advances when the apply is accepted, otherwise the replay after a restart applies an entry twice')
     ck.borrow('rules.c19', {'R19h': 'R01q'}, 'a request served while the restore is still running is applied on top of a state that is about to be overwritten by it')
     ck.borrow('rules.c20', {'R20g': 'R01p'}, 'a snapshot whose header record is longer than one read chunk must still be readable at start-up, otherwise everything it covers is missing after the restart')
@@ -1040,3 +1041,56 @@ def r01z(ck, fb, R='R01z'):
                'they are asked - the snapshot contains entries its header does not cover and the restart replays them again (leader: NextId answers 5 '
                'on the running node and 6 after the restart; follower batch: counter 2 -> 3, history [a=1,a=2,a=1] -> [a=1,a=2,a=1,a=2,a=1])',
                'registered with ctx.wait')
+
+
+def r01aa(ck, fb, R='R01aa'):
+    ck.rule(R, '"nothing that was acknowledged is missing" after a restart: the start-up replay covers every entry from the first index the snapshot '
+               'does not hold (snapshot_next_index) up to AND INCLUDING last_applied_log. StateApplyManager::load_log returns without asking the log '
+               'files only when nothing was ever applied, a manager is missing, or a comparison says last_applied_log < snapshot_next_index; a test '
+               'that also holds for equality (<=) skips the replay of exactly one entry - the publish acknowledged right after a compaction - and raft, '
+               'which is told that entry is applied, never applies it again')
+    b = ck.body('rnacos::raft::filestore::raftapply::StateApplyManager::load_log', R)
+    if not b:
+        return
+    loads = [s0 for x in util.region(fb, b, 1) for (s0, m0, v0, a0) in util.sends(x, r'RaftLogManagerAsyncRequest$', 'Load')]
+    # the send sits in the async block; in load_log itself the block that creates that closure is the point of no return
+    made = [i for (i, j, st, cdef) in b.closures_created() if any(s0.body.name == cdef or (s0.body.parent or '') == cdef for s0 in loads)]
+    ck.floor(R, 'replay requests to the log manager', len(loads), 1)
+    if not made:
+        ck.bad(R, 'load_log:anchor', b.where(), 'the replay request is not sent from a future created in load_log: the rule does not know this shape')
+        return
+    bad = []
+    n = 0
+    for (s0, d0, lab0, t0) in cfg.switch_edges(b):
+        d = cfg.describe_operand(b, t0['discr'])
+        neg = False
+        while d['k'] == 'un' and d['op'] == 'Not':
+            neg = not neg
+            d = cfg.describe_operand(b, d['a'])
+        if d['k'] != 'bin' or d['op'] not in ('Lt', 'Le', 'Gt', 'Ge', 'Eq', 'Ne'):
+            continue
+        fa, fb_ = cfg.origin_fields(b, d['a'])[-1:], cfg.origin_fields(b, d['b'])[-1:]
+        if sorted(fa + fb_) != ['last_applied_log', 'snapshot_next_index']:
+            continue
+        n += 1
+        pol = cfg.edge_polarity(t0, lab0)
+        if pol is None:
+            continue
+        if neg:
+            pol = not pol
+        # relation of (last_applied_log - snapshot_next_index) that holds on this edge: subset of {'<', '=', '>'}
+        op = d['op']
+        if fa == ['snapshot_next_index']:
+            op = {'Lt': 'Gt', 'Le': 'Ge', 'Gt': 'Lt', 'Ge': 'Le'}.get(op, op)
+        holds = {'Lt': {'<'}, 'Le': {'<', '='}, 'Gt': {'>'}, 'Ge': {'>', '='}, 'Eq': {'='}, 'Ne': {'<', '>'}}[op]
+        if not pol:
+            holds = {'<', '=', '>'} - holds
+        # does this edge lead around the replay?
+        r = cfg.reach_from(b, [d0], blocked_blocks=set(made))
+        skips = any(x in r for x in b.return_blocks()) and not any(m in cfg.reach_from(b, [d0]) for m in made)
+        if skips and (holds & {'=', '>'}):
+            bad.append((s0, holds))
+    ck.require(not bad, R, 'load_log:replay-range-inclusive', b.where(bad[0][0]) if bad else b.where(),
+               'load_log skips the replay on an edge on which last_applied_log %s snapshot_next_index can hold: the entry at snapshot_next_index '
+               '(acknowledged, applied, not in the snapshot) is not restored after a restart and never applied again' % (sorted(bad[0][1]) if bad else ''),
+               '%d comparisons of the two indexes, none skips an entry' % n)
